@@ -233,6 +233,15 @@ func (l *VegasLimit) OnSample(startTime int64, rtt int64, inFlight int, didDrop 
 		return
 	}
 
+	if rtt <= 0 {
+		// A zero RTT carries no latency information and must not become the baseline
+		// (0 encodes "unset"), but a drop reported with it still has to reduce the limit.
+		if didDrop {
+			l.updateEstimatedLimit(startTime, rtt, inFlight, didDrop)
+		}
+		return
+	}
+
 	if l.rttNoLoad.Get() == 0 || float64(rtt) < l.rttNoLoad.Get() {
 		l.logger.Debugf("Update RTT No Load to %d ms from %d ms", rtt/1e6, int64(l.rttNoLoad.Get())/1e6)
 		l.rttNoLoad.Add(float64(rtt))
